@@ -281,6 +281,18 @@ def oracle(cfg, bounds, args, r):
                 fails.append("round trip of a %s updated in place (slot %d) on a re-used manager: %r -> %r"
                              % (kind, i, [float(b) for b in buf], back_b))
                 break
+    # the dictionaries of one vector stay the dictionaries of THAT vector when the same manager converts another vector
+    # afterwards (a sampler keeps the dictionaries of the current point while it converts the proposal)
+    try:
+        kw_first = pm.args2kwargs(list(args))
+        other = [float(a) + 0.37 * (i + 1) for i, a in enumerate(args)]
+        pm.args2kwargs(other)
+        back_first = [float(x) for x in pm.kwargs2args(*kw_first)]
+        if len(back_first) != n or not all(close(a, float(b), 1e-12) for a, b in zip(back_first, args)):
+            fails.append("the dictionaries of a vector no longer map back to it after the same manager converted ANOTHER vector: %r -> %r"
+                         % ([float(a) for a in args], back_first))
+    except Exception as e:  # noqa
+        fails.append("dictionaries of an earlier vector used after a later conversion: %s" % err_enum(e))
     try:
         kw_e = pm.args2kwargs(list(args))
         for d in list(kw_e[:4]) + list(kw_e[4] or []):
